@@ -445,9 +445,9 @@ func (p *Packer) Unpack(r io.Reader, dst string) error {
 
 		// Handle symlinks, directories, non-regular files
 		if info.IsSymlink() {
-			// The entry is placed relative to dst even if its name has a
-			// leading slash (see NewUnpackInfo); validate its target from there.
-			if ok, err := p.validSymlink(dst, strings.TrimPrefix(header.Name, "/"), header.Linkname); ok {
+			// The entry is placed relative to dst even if its name has
+			// leading slashes (see NewUnpackInfo); validate its target from there.
+			if ok, err := p.validSymlink(dst, strings.TrimLeft(header.Name, "/"), header.Linkname); ok {
 				// Create the symlink.
 				if err = os.Symlink(header.Linkname, info.Path); err != nil {
 					return fmt.Errorf("failed creating symlink (%q -> %q): %w",
